@@ -184,6 +184,16 @@ func c03Run(c *h.Ctx) {
 		id := fmt.Sprintf("p%d", i)
 		cs := pkt.Gen(r)
 		sr := rand.New(rand.NewSource(r.Int63()))
+		if cs.Kind == "interest" && cs.Payload != nil && len(cs.Name) >= 1 && sr.Intn(8) == 0 {
+			// an earlier parameterized Interest's digest stays in the middle of a follow-up's name
+			dg := make([]byte, 32)
+			sr.Read(dg)
+			k := sr.Intn(len(cs.Name))
+			nn := append(enc.Name{}, cs.Name[:k]...)
+			nn = append(nn, enc.Component{Typ: enc.TypeParametersSha256DigestComponent, Val: dg})
+			cs.Name = append(nn, cs.Name[k:]...)
+			c.Count("interests_with_an_inner_parameters_digest", 1)
+		}
 		if !c.Case(id) {
 			continue
 		}
